@@ -29,7 +29,12 @@ Oracle (DESIGN.md section 4 / C12):
 
 One history in four uses class flavours whose observed Property is declared in a base
 class while the getter is supplied or overridden (cached <-> uncached) by a subclass that
-does not redeclare the trait (keys ``inherited-getter/...``).  The legacy
+does not redeclare the trait (keys ``inherited-getter/...``).  Small dedicated strata (own
+classes, keys and counters, same laws): ``instance-trait/``, ``shared-owner-churn/``,
+``comparison-mode/`` (dependencies declared with comparison mode none / identity / equality that
+receive the identical object, an equal-but-distinct object or an unequal one; identity-sensitive
+getters) and ``property-chain/`` (an intermediate node of the observe path is itself a Property,
+i.e. a value that is never stored, only announced).  The legacy
 ``Property(depends_on=...)`` strata (``depends_on/...``) exist but are switched off in
 ``run()``: the statement is about ``observe=`` only.
 """
@@ -80,6 +85,29 @@ META = {
              "short-lived owners that are dropped, collected and replaced by bursts of fresh owners; "
              "every change of a shared object is judged on every live owner; address reuse of dead "
              "owners is counted).  "
+             "comparison-mode/: the dependencies (a scalar, an Instance, a Tuple, a Str, a List trait, "
+             "an Array, the leaves of a nested object and of list elements) are declared with "
+             "comparison_mode none / identity / equality (enum member or integer, explicit or implicit) "
+             "and receive, per operation, the identical object again, an EQUAL-BUT-DISTINCT object "
+             "(2 / 2.0 / Fraction / Decimal, True / 1, equal strings, bytes, tuples, frozensets, value "
+             "objects, lists, arrays of size 0 / 1 / n, an object equal to everything, NaN and its twin, "
+             "objects whose == raises) or an unequal one; the getters of none / identity dependencies "
+             "pass the object through (results compared by identity and type), those of equality "
+             "dependencies return the value (compared with ==, the control); children are replaced by "
+             "children with equal-but-distinct leaves; copies by pickle / deepcopy / clone_traits.  "
+             "property-chain/: the observe path of the dependent goes THROUGH another Property (a "
+             "cursor into a list with duplicates, a dict look-up by a key trait, a pass-through of a "
+             "nested object and of its sub-object, a property with a setter over a shadow trait, a "
+             "property over a property; cached and one uncached; the dependents' getters read through "
+             "the intermediate property, the oracle recomputes from the stored traits); operations "
+             "move the cursor / mutate the list / re-key the look-up / replace the nested objects and "
+             "then change the object the path NOW ends at, one it ended at BEFORE, or any other; on "
+             "original, unpickled, deep-copied and cloned owners (shared elements after shallow "
+             "clones).  Two strata of open findings, every failure collapsed into the finding's key: "
+             "the intermediate property has never announced itself since the observers were installed "
+             "(its value derives from a per-instance default) and the intermediate property is "
+             "uncached (in the main chain stratum a change of any element counts as possibly reaching "
+             "the dependents of the uncached intermediate).  "
              "The legacy depends_on strata are switched off (outside the statement).  "
              "distinct_nontrivial counts distinct (class flavour, listener mode, operation kind, "
              "origin of the operated object, set of dependency kinds whose state changed on it, "
@@ -113,7 +141,17 @@ META = {
                   "insttrait_readd_cycles_on_observed_slot": 450, "insttrait_clones": 140,
                   "churn_reads_checked": 20000, "churn_notifications_required": 1600,
                   "churn_owners_collected": 1300, "churn_owner_address_reuse": 1000,
-                  "churn_shared_changes_judged_on_address_reusing_owners": 1100},
+                  "churn_shared_changes_judged_on_address_reusing_owners": 1100,
+                  "cmode_reads_checked": 90000, "cmode_notifications_required": 4400,
+                  "cmode_assign_identity_equal_distinct": 700,
+                  "cmode_assign_none_identical": 40,
+                  "cmode_assign_equality_equal_distinct": 220,
+                  "cmode_leaf_assignments_on_observed_child": 450, "cmode_copies": 330,
+                  "chain_reads_checked": 100000, "chain_notifications_required": 12000,
+                  "chain_changes_of_an_object_reached_through_a_property": 1200,
+                  "chain_path_end_changes_on_pickle": 250,
+                  "chain_path_end_changes_on_clone": 220, "chain_copies": 350,
+                  "chain_defaults_ops": 45, "chain_uncached_ops": 250},
         "thorough": {"evaluations": 25000000, "reads_checked": 8000000, "relevant_changes": 1000000,
                      "value_changes": 800000, "notifications_required": 1000000,
                      "notifications_required_static": 300000,
@@ -139,7 +177,17 @@ META = {
                      "insttrait_readd_cycles_on_observed_slot": 12000, "insttrait_clones": 4000,
                      "churn_reads_checked": 550000, "churn_notifications_required": 45000,
                      "churn_owners_collected": 35000, "churn_owner_address_reuse": 27000,
-                     "churn_shared_changes_judged_on_address_reusing_owners": 30000},
+                     "churn_shared_changes_judged_on_address_reusing_owners": 30000,
+                     "cmode_reads_checked": 2800000, "cmode_notifications_required": 135000,
+                     "cmode_assign_identity_equal_distinct": 22000,
+                     "cmode_assign_none_identical": 1400,
+                     "cmode_assign_equality_equal_distinct": 7000,
+                     "cmode_leaf_assignments_on_observed_child": 14000, "cmode_copies": 10000,
+                     "chain_reads_checked": 3300000, "chain_notifications_required": 370000,
+                     "chain_changes_of_an_object_reached_through_a_property": 37000,
+                     "chain_path_end_changes_on_pickle": 8000,
+                     "chain_path_end_changes_on_clone": 7000, "chain_copies": 11000,
+                     "chain_defaults_ops": 450, "chain_uncached_ops": 2500},
     },
     "assumptions": [
         "the getters are pure functions of the declared dependencies; the harness recomputes the "
@@ -1564,7 +1612,12 @@ class _ShrinkingSink:
             saved = (ST.calls, ST.log, ST.excs, ST.probe, ST.serial)
             try:
                 engine = {InstanceTraitHistory.pfx: InstanceTraitHistory,
-                          ChurnHistory.pfx: ChurnHistory}.get(witness.get("stratum"))
+                          ChurnHistory.pfx: ChurnHistory,
+                          ComparisonModeHistory.pfx: ComparisonModeHistory,
+                          ChainHistory.pfx: ChainHistory,
+                          ChainDefaultsHistory.collapse: ChainDefaultsHistory,
+                          ChainUncachedHistory.collapse: ChainUncachedHistory,
+                          }.get(witness.get("stratum"))
                 small = shrink(witness["spec"], witness["ops"], key, engine)
                 witness = dict(witness)
                 witness["shrunk_ops"] = small
@@ -1594,12 +1647,15 @@ def _mini_getter(pname, fn):
 
 
 def _mini_class(name, traits, props, static=()):
-    """props: name -> (pure function, cached, observe expression)."""
+    """props: name -> (pure function, cached, observe expression[, getter function])."""
     ns = {"__module__": __name__, "__qualname__": name, "sn": Int(transient=True), "irr": Int}
     ns.update(traits)
-    for pname, (fn, cached, expr) in props.items():
+    for pname, spec in props.items():
+        fn, cached, expr = spec[:3]
         ns[pname] = Property(observe=expr)
-        g = _mini_getter(pname, fn)
+        # optional 4th element: what the GETTER evaluates (e.g. through another property), when
+        # it is not literally the oracle's function of the raw state
+        g = _mini_getter(pname, spec[3] if len(spec) > 3 else fn)
         ns["_get_" + pname] = cached_property(g) if cached else g
     for pname in static:
         ns["_%s_changed" % pname] = _make_static(pname)
@@ -1620,6 +1676,7 @@ class MiniHistory:
     coherent, untouched owners stay quiet)."""
     pfx = ""
     cpfx = ""
+    collapse = None      # strata built around ONE open finding report every failure under one key
 
     def __init__(self, sink, spec, ops):
         self.sink, self.spec, self.ops = sink, spec, ops
@@ -1633,12 +1690,20 @@ class MiniHistory:
         raise NotImplementedError
 
     def fail(self, key, msg, **extra):
-        w = {"spec": self.spec, "ops": self.trace, "step": self.step, "stratum": self.pfx}
+        w = {"spec": self.spec, "ops": self.trace, "step": self.step,
+             "stratum": self.collapse or self.pfx}
         w.update(extra)
-        self.sink.violation(self.pfx + key, "%s [class %s, listen=%s, step %d, op %r]"
+        if self.collapse and key.split("/")[0] in ("stale-read", "notify", "recompute",
+                                                   "isolation"):
+            # (exceptions keep their own key: they are never part of the finding)
+            msg = "[%s] %s" % (key, msg)
+            full = self.collapse
+        else:
+            full = self.pfx + key
+        self.sink.violation(full, "%s [class %s, listen=%s, step %d, op %r]"
                             % (msg, self.spec["cls"], self.spec["listen"], self.step,
                                self.trace[-1] if self.trace else None), w)
-        raise Stop(self.pfx + key)
+        raise Stop(full)
 
     def count(self, name, n=1):
         self.sink.count(self.cpfx + name, n)
@@ -2213,6 +2278,910 @@ class ChurnHistory(MiniHistory):
                            len([r for r in self.live if id(r.obj) in self.dead_ids]))
 
 
+# ---- comparison-mode stratum --------------------------------------------------------
+# The dependency is declared with a comparison mode (none / identity / equality, given as enum
+# member or as its integer, explicitly or implicitly as for Array) and receives successive
+# values that are the IDENTICAL object, an EQUAL-BUT-DISTINCT object (2 -> 2.0 -> True -> 1,
+# equal strings / tuples / value objects / lists / arrays, objects equal to everything, NaN and
+# its twin, objects whose == raises) or an unequal one.  The getters of identity / none
+# dependencies pass the object itself through (result compared by identity and type), so an
+# equal-but-distinct value is a change of the computed value; the getters of equality
+# dependencies return the value (compared with ==), so it is not (control).
+
+class Ref:
+    """What an identity-sensitive getter returns: the dependency's value itself.  Equal iff the
+    very same object (and type).  Pickle / deepcopy keep the wrapped object shared with the
+    trait value it came from (memo), so a cache entry that travels with a copy stays truthful."""
+
+    def __init__(self, obj):
+        self.obj = obj
+
+    def __eq__(self, other):
+        return type(other) is Ref and other.obj is self.obj
+
+    def __ne__(self, other):
+        return not self.__eq__(other)
+
+    def __hash__(self):
+        return id(self.obj)
+
+    def __repr__(self):
+        try:
+            r = repr(self.obj)[:40]
+        except Exception:  # noqa: BLE001
+            r = "?"
+        return "<%s %s @%x>" % (type(self.obj).__name__, r, id(self.obj) & 0xFFFFF)
+
+
+class Token:
+    """A small value object: equal by content, distinct by identity."""
+
+    def __init__(self, text):
+        self.text = text
+
+    def __eq__(self, other):
+        return isinstance(other, Token) and other.text == self.text
+
+    def __hash__(self):
+        return hash(self.text)
+
+    def __repr__(self):
+        return "Token(%r)" % (self.text,)
+
+
+class AlwaysEqual:
+    """Equal to everything (like unittest.mock.ANY)."""
+
+    def __eq__(self, other):
+        return True
+
+    def __ne__(self, other):
+        return False
+
+    def __hash__(self):
+        return 1
+
+    def __repr__(self):
+        return "AlwaysEqual()"
+
+
+class RaisesOnEq:
+    """Comparison is not defined (like arrays of more than one element)."""
+
+    def __eq__(self, other):
+        raise ValueError("comparison not defined")
+
+    def __hash__(self):
+        return 2
+
+    def __repr__(self):
+        return "RaisesOnEq()"
+
+
+try:
+    import numpy as _np
+    from traits.api import Array as _Array
+except Exception:  # noqa: BLE001 - the Array dependency is simply left out
+    _np = _Array = None
+
+from decimal import Decimal as _Decimal          # noqa: E402
+from fractions import Fraction as _Fraction      # noqa: E402
+from traits.api import Any as _Any, Tuple as _Tuple, ComparisonMode as _CMode  # noqa: E402
+
+
+def _eqv(a, b):
+    """a == b as a plain truth value; False when the comparison is not defined."""
+    try:
+        if _np is not None and (isinstance(a, _np.ndarray) or isinstance(b, _np.ndarray)):
+            return (isinstance(a, _np.ndarray) and isinstance(b, _np.ndarray)
+                    and a.shape == b.shape and bool((a == b).all()))
+        return bool(a == b)
+    except Exception:  # noqa: BLE001
+        return False
+
+
+def _cm_pools():
+    """Fresh value pools (distinct objects per history)."""
+    s1, s2 = "".join(["a", "b"]), "".join(["a", "b"])
+    nan = float("nan")
+    pools = {
+        "any": [1, 1.0, True, 2, 2.0, _Fraction(2), _Decimal(2), 0, 0.0, False, -0.0, None, s1, s2,
+                (1, 2), tuple([1, 2]), (1.0, 2), Token("t"), Token("t"), Token("u"), nan,
+                float("nan"), AlwaysEqual(), RaisesOnEq(), RaisesOnEq(), frozenset([1]),
+                frozenset([1.0]), b"ab", bytes(bytearray(b"ab")), 10 ** 20, 10 ** 20 + 0, 1e20],
+        # values with a well-behaved == (equality-compared control dependencies)
+        "well": [1, 1.0, True, 2, 2.0, _Fraction(2), 0, 0.0, False, None, s1, s2, (1, 2),
+                 tuple([1, 2]), (1.0, 2), Token("t"), Token("t"), Token("u"), 10 ** 20, 1e20],
+        "token": [Token("t"), Token("t"), Token("u"), Token("u"), None],
+        "tuple": [(1, 2), tuple([1, 2]), (1.0, 2.0), (True, 2), (), (3,), tuple([3]),
+                  (Token("t"),), (Token("t"),)],
+        "str": [s1, s2, "c", "", "".join(["c"]), "ab" + ""],
+        "list": [[1, 2], [1, 2], [], [3], [3], [1, 2, 3]],
+    }
+    if _np is not None:
+        pools["array"] = [_np.array([1]), _np.array([1]), _np.array([1.0]), _np.array([1, 2]),
+                          _np.array([1, 2]), _np.array([]), _np.array([]), _np.array([[1]]),
+                          _np.array(1), _np.array(1)]
+    return pools
+
+
+class CMItem(HasTraits):
+    pi = _Any(comparison_mode=_CMode.identity)
+    pn = _Any(comparison_mode=_CMode.none)
+    pe = _Any()
+
+
+# dependency name -> (comparison mode, pool)
+CM_DEPS = collections.OrderedDict([
+    ("ai", ("identity", "any")), ("an", ("none", "any")), ("ae", ("equality", "well")),
+    ("ti", ("identity", "token")), ("ui", ("identity", "tuple")), ("si", ("identity", "str")),
+    ("li", ("identity", "list")), ("le", ("equality", "list")),
+])
+if _np is not None:
+    CM_DEPS["arr"] = ("identity", "array")
+CM_LEAVES = collections.OrderedDict([("pi", ("identity", "any")), ("pn", ("none", "any")),
+                                     ("pe", ("equality", "well"))])
+
+
+def _cm_ref(name):
+    return lambda o: Ref(getattr(o, name))
+
+
+def _cm_eq(name):
+    return lambda o: ("eq", getattr(o, name))
+
+
+def _cm_inner(leaf, ident=True):
+    def fn(o):
+        i = o.inner
+        if i is None:
+            return None
+        x = getattr(i, leaf)
+        return Ref(x) if ident else ("eq", x)
+    return fn
+
+
+def _cm_kids(o):
+    return tuple([Ref(k.pi) for k in o.kids])
+
+
+def _cm_all(o):
+    i = o.inner
+    return (Ref(o.ai), Ref(o.ti), None if i is None else Ref(i.pi))
+
+
+def _cm_class(name, enum, exprs, static):
+    ident = _CMode.identity if enum else int(_CMode.identity)
+    none = _CMode.none if enum else int(_CMode.none)
+    traits = dict(
+        ai=_Any(comparison_mode=ident), an=_Any(comparison_mode=none), ae=_Any(),
+        ti=Instance(Token, comparison_mode=ident), ui=_Tuple(comparison_mode=ident),
+        si=Str(comparison_mode=ident), li=List(Int, comparison_mode=ident), le=List(Int),
+        inner=Instance(CMItem), kids=List(Instance(CMItem)))
+    t = _otrait
+    E = (lambda s, e: e) if exprs else (lambda s, e: s)
+    props = collections.OrderedDict([
+        ("c_ai", (_cm_ref("ai"), True, E("ai", t("ai")))),
+        ("u_ai", (_cm_ref("ai"), False, E(["ai"], [t("ai")]))),
+        ("c_an", (_cm_ref("an"), True, E("an", t("an")))),
+        ("c_ae", (_cm_eq("ae"), True, E("ae", t("ae")))),
+        ("c_ti", (_cm_ref("ti"), True, E("ti", t("ti")))),
+        ("c_ui", (_cm_ref("ui"), True, E("ui", t("ui")))),
+        ("c_si", (_cm_ref("si"), True, E("si", t("si")))),
+        ("c_li", (_cm_ref("li"), True, E("li", t("li")))),
+        ("c_lii", ((lambda o: tuple(o.li)), True, E("li.items", t("li").list_items()))),
+        ("c_lei", ((lambda o: tuple(o.le)), True, E("le.items", t("le").list_items()))),
+        ("c_ipi", (_cm_inner("pi"), True, E("inner.pi", t("inner").trait("pi")))),
+        ("u_ipi", (_cm_inner("pi"), False, E("inner.pi", t("inner").trait("pi")))),
+        ("c_ipn", (_cm_inner("pn"), True, E("inner.pn", t("inner").trait("pn")))),
+        ("c_ipe", (_cm_inner("pe", False), True, E("inner.pe", t("inner").trait("pe")))),
+        ("c_kpi", (_cm_kids, True, E("kids.items.pi", t("kids").list_items().trait("pi")))),
+        ("c_all", (_cm_all, True, E("ai, ti, inner.pi",
+                                    t("ai") | t("ti") | t("inner").trait("pi")))),
+    ])
+    if _np is not None:
+        traits["arr"] = _Array if enum else _Array(comparison_mode=ident)
+        props["c_arr"] = (_cm_ref("arr"), True, E("arr", t("arr")))
+    return _mini_class(name, traits, props, static=static)
+
+
+CMA = _cm_class("CMA", True, False, ("c_ai", "c_ti", "c_ipi", "c_li"))
+CMB = _cm_class("CMB", False, True, ("u_ai", "c_an", "c_kpi", "c_all", "c_si"))
+CM_CLASSES = {"CMA": CMA, "CMB": CMB}
+CM_NPROPS = len(CMA._mini_props)
+# which properties read which direct dependency / which leaf of a child
+CM_DEP_PROPS = {"ai": ("c_ai", "u_ai", "c_all"), "an": ("c_an",), "ae": ("c_ae",),
+                "ti": ("c_ti", "c_all"), "ui": ("c_ui",), "si": ("c_si",),
+                "li": ("c_li", "c_lii"), "le": ("c_lei",), "arr": ("c_arr",)}
+CM_INNER_PROPS = ("c_ipi", "u_ipi", "c_ipn", "c_ipe", "c_all")
+CM_COPY_KINDS = ("pickle2", "pickle4", "pickle5", "deepcopy", "clone", "clone_deep",
+                 "clone_shallow")
+
+
+def gen_cm_history(rng, steps):
+    spec = {"cls": rng.choice(sorted(CM_CLASSES)),
+            "listen": rng.choice(["none", "otc", "obs", "both", "both"]),
+            "dyn": rng.getrandbits(CM_NPROPS) | rng.getrandbits(CM_NPROPS)}
+    ops = []
+    ndeps = len(CM_DEPS)
+    for _ in range(steps):
+        c = rng.random()
+        op = {"r": rng.randrange(3), "m": rng.getrandbits(CM_NPROPS) | rng.getrandbits(CM_NPROPS),
+              "sel": rng.randrange(12), "own": rng.randrange(4)}
+        # how: 0 = the identical object again, 1-4 = an equal but distinct object (when the pool
+        # has one), 5-9 = any pool value
+        if c < 0.50:
+            op["op"], op["x"] = "assign", [rng.randrange(ndeps), rng.randrange(10),
+                                           rng.randrange(40)]
+        elif c < 0.64:
+            op["op"], op["x"] = "leaf_assign", [rng.randrange(3), rng.randrange(10),
+                                                rng.randrange(40)]
+        elif c < 0.71:
+            op["op"], op["x"] = "inner_set", [rng.randrange(-4, 8)]
+        elif c < 0.79:
+            op["op"] = rng.choice(["kids_append", "kids_append", "kids_pop", "kids_assign",
+                                   "kids_insert"])
+            op["x"] = [rng.randrange(-4, 8), rng.randrange(3)]
+        elif c < 0.84:
+            op["op"], op["x"] = "list_inplace", [rng.randrange(2), rng.randrange(3),
+                                                 rng.randrange(4)]
+        elif c < 0.93:
+            op["op"], op["x"] = "copy", [rng.choice(CM_COPY_KINDS)]
+        else:
+            op["op"], op["x"] = "irr", []
+        ops.append(op)
+    return spec, ops
+
+
+class ComparisonModeHistory(MiniHistory):
+    pfx = "comparison-mode/"
+    cpfx = "cmode_"
+
+    def fp(self, o):
+        inner = o.inner
+        kids = list(o.kids)
+        out = {}
+        for dep, props in CM_DEP_PROPS.items():
+            if dep == "arr" and _np is None:
+                continue
+            x = getattr(o, dep)
+            f = (Ref(x), tuple(x)) if dep in ("li", "le") else Ref(x)
+            for p in props:
+                out[p] = f
+        fi = None if inner is None else (Ref(inner), Ref(inner.pi), Ref(inner.pn), Ref(inner.pe))
+        for p in CM_INNER_PROPS:
+            out[p] = fi
+        out["c_all"] = (Ref(o.ai), Ref(o.ti), fi)
+        out["c_kpi"] = ([Ref(k) for k in kids], [Ref(k.pi) for k in kids])
+        return out
+
+    def new_item(self, like=None):
+        P = self.pools
+        if like is not None:
+            # a different child whose leaves are equal-but-distinct to those of `like`
+            it = CMItem(pi=self.twin(like.pi, P["any"], 0), pn=self.twin(like.pn, P["any"], 1),
+                        pe=self.twin(like.pe, P["well"], 2))
+        else:
+            n = len(self.items)
+            it = CMItem(pi=P["any"][(3 * n) % len(P["any"])], pn=P["any"][(5 * n + 1) % len(P["any"])],
+                        pe=P["well"][(7 * n + 2) % len(P["well"])])
+        self.items.append(it)
+        del self.items[:-6]
+        return it
+
+    def twin(self, cur, pool, salt):
+        """An object of the pool that is == cur but not cur (else any other one)."""
+        n = len(pool)
+        for j in range(n):
+            c = pool[(j + salt) % n]
+            if c is not cur and _eqv(c, cur) and _eqv(cur, c):
+                return c
+        return pool[salt % n]
+
+    def setup(self):
+        self.cls = CM_CLASSES[self.spec["cls"]]
+        P = self.pools = _cm_pools()
+        self.items = []
+        kw = dict(ai=P["any"][3], an=P["any"][0], ae=P["well"][3], ti=P["token"][0],
+                  ui=P["tuple"][0], si=P["str"][0], li=P["list"][0], le=P["list"][0],
+                  inner=self.new_item(), kids=[self.new_item(), self.new_item()])
+        if _np is not None:
+            kw["arr"] = P["array"][0]
+        kw["kids"].append(kw["kids"][0])           # one child twice
+        if self.spec["dyn"] & 1:
+            o = self.cls(**kw)
+        else:
+            o = self.cls()
+            for k in sorted(kw):
+                setattr(o, k, kw[k])
+        self.attach(o, "fresh")
+
+    def children_of(self, o):
+        out = [o.inner] if o.inner is not None else []
+        return out + list(o.kids)
+
+    def pick_child(self, o, sel):
+        c = self.children_of(o)
+        for r in self.live:
+            if r.obj is not o:
+                c += self.children_of(r.obj)[:2]
+        c += self.items
+        return c[sel % len(c)]
+
+    def holders(self, child):
+        out = {}
+        for r in self.live:
+            ps = set()
+            if r.obj.inner is child:
+                ps.update(CM_INNER_PROPS)
+            if any(k is child for k in r.obj.kids):
+                ps.add("c_kpi")
+            if ps:
+                out[r.sn] = ps
+        return out
+
+    def choose(self, cur, pool, how, idx):
+        if how == 0:
+            return cur
+        if how <= 4:
+            return self.twin(cur, pool, idx)
+        return pool[idx % len(pool)]
+
+    def classify(self, mode, cur, new):
+        kind = ("identical" if new is cur else
+                "equal-distinct" if (_eqv(cur, new) or _eqv(new, cur)) else "unequal")
+        self.count("assign_%s_%s" % (mode, kind.replace("-", "_")))
+        return "assign/%s/%s" % (mode, kind)
+
+    def one(self, op):
+        name, x = op["op"], op["x"]
+        r = self.live[-1] if op["own"] or len(self.live) == 1 else \
+            self.live[op["sel"] % len(self.live)]
+        o = r.obj
+        touched, fam = None, name
+        if name == "assign":
+            dep = list(CM_DEPS)[x[0] % len(CM_DEPS)]
+            mode, pk = CM_DEPS[dep]
+            cur = getattr(o, dep)
+            new = self.choose(cur, self.pools[pk], x[1], x[2])
+            fam = self.classify(mode, cur, new)
+            # an event may be delivered without a change of the computed value (mode `none`,
+            # list traits wrap every assigned list anew)
+            touched = {r.sn: CM_DEP_PROPS[dep]}
+
+            def fn():
+                setattr(o, dep, new)
+        elif name == "leaf_assign":
+            ch = self.pick_child(o, op["sel"])
+            leaf = list(CM_LEAVES)[x[0]]
+            mode, pk = CM_LEAVES[leaf]
+            cur = getattr(ch, leaf)
+            new = self.choose(cur, self.pools[pk], x[1], x[2])
+            touched = self.holders(ch)
+            fam = "child-" + self.classify(mode, cur, new)
+            if touched:
+                self.count("leaf_assignments_on_observed_child")
+
+            def fn():
+                setattr(ch, leaf, new)
+        elif name == "inner_set":
+            if x[0] < 0:
+                ch = self.new_item(like=o.inner) if x[0] < -1 else None
+            else:
+                ch = self.pick_child(o, x[0])
+            touched = {r.sn: CM_INNER_PROPS}
+
+            def fn():
+                o.inner = ch
+            fam = "inner-set"
+        elif name.startswith("kids_"):
+            kids = list(o.kids)
+            ch = (self.new_item(like=kids[x[1] % len(kids)] if kids else None)
+                  if x[0] < 0 else self.pick_child(o, x[0]))
+            touched = {r.sn: ("c_kpi",)}
+
+            def fn():
+                if name == "kids_append":
+                    o.kids.append(ch)
+                elif name == "kids_insert":
+                    o.kids.insert(x[1], ch)
+                elif name == "kids_pop":
+                    if o.kids:
+                        o.kids.pop(0 if x[1] else -1)
+                else:
+                    o.kids = [ch, self.pick_child(o, op["sel"]), ch][:1 + x[1]]
+            fam = "kids-container"
+        elif name == "list_inplace":
+            lst = o.li if x[0] else o.le
+            touched = {r.sn: ("c_lii",) if x[0] else ("c_lei",)}
+
+            def fn():
+                if x[1] == 0:
+                    lst.append(x[2])
+                elif x[1] == 1:
+                    if len(lst):
+                        lst.pop()
+                else:
+                    lst[0:1] = [x[2], x[2]]
+            fam = "list-in-place/" + ("identity" if x[0] else "equality")
+        elif name == "copy":
+            holder = []
+            kind = x[0]
+
+            def fn():
+                if kind.startswith("pickle"):
+                    holder.append(pickle.loads(pickle.dumps(o, int(kind[6:]))))
+                elif kind == "deepcopy":
+                    holder.append(copy.deepcopy(o))
+                elif kind == "clone":
+                    holder.append(o.clone_traits())
+                else:
+                    holder.append(o.clone_traits(copy=kind[6:]))
+            fam = "copy/" + _okind(kind)
+        else:
+            def fn():
+                o.irr += 1
+            fam = "irrelevant"
+        self.judged_step(fam, fn, touched, 1, reads=0)
+        if name == "copy":
+            self.attach(holder[0], x[0])
+            self.count("copies")
+            self.count("copies_" + _okind(x[0]))
+            if len(self.live) > 3:
+                del self.live[0]
+        self.judged_step("reads", lambda: None, None, 1, reads=op["r"], mask=op["m"])
+
+
+# ---- property-chain stratum --------------------------------------------------------------
+# An intermediate node of the observe path is itself a Property, i.e. a trait whose value is
+# never stored (announced with trait_property_changed only): a cursor into a list, a dict
+# look-up, a pass-through of a nested object, a property with a setter over a shadow trait, a
+# property over a property; cached and (one) uncached.  The dependents read THROUGH the
+# intermediate property; the oracle recomputes from the stored traits.
+
+def _pc_cur(o):
+    items, i = o.items, o.index
+    return items[i] if 0 <= i < len(items) else None
+
+
+def _pc_deep(o):
+    i = o.inner
+    return None if i is None else i.sub
+
+
+def _pc_look(o):
+    return o.d.get(o.key)
+
+
+def _pc_cur2(o):
+    c = _pc_cur(o)
+    return None if c is None else c.sub
+
+
+def _v(x):
+    return None if x is None else x.v
+
+
+def _via(pname, then=None):
+    """Getter body that reads through the intermediate property `pname`."""
+    def fn(o):
+        x = getattr(o, pname)
+        if then is not None and x is not None:
+            x = getattr(x, then)
+        return _v(x)
+    return fn
+
+
+def _pc_set_sel(self, value):
+    self.shadow = value
+
+
+def _pc_class(name, exprs, static):
+    t = _otrait
+    E = (lambda s, e: e) if exprs else (lambda s, e: s)
+    traits = dict(items=List(Instance(Item)), index=Int, inner=Instance(Item),
+                  d=Dict(Str, Instance(Item)), key=Str("k"), shadow=Instance(Item),
+                  _set_sel=_pc_set_sel)
+    cur_e = E("index, items.items", t("index") | t("items").list_items())
+    props = collections.OrderedDict([
+        # the intermediate properties (judged like any other observed property)
+        ("cur", (_pc_cur, True, cur_e)),
+        ("ucur", (_pc_cur, False, E(["index", "items.items"],
+                                    [t("index"), t("items").list_items()]))),
+        ("pin", ((lambda o: o.inner), True, E("inner", t("inner")))),
+        ("deep", (_pc_deep, True, E("inner.sub", t("inner").trait("sub")))),
+        ("look", (_pc_look, True, E("key, d.items", t("key") | t("d").dict_items()))),
+        ("sel", ((lambda o: o.shadow), True, E("shadow", t("shadow")))),
+        ("cur2", (_pc_cur2, True, E("cur.sub", t("cur").trait("sub")),
+                  (lambda o: None if o.cur is None else o.cur.sub))),
+        # the dependents: the path goes through a property
+        ("c_curv", ((lambda o: _v(_pc_cur(o))), True, E("cur.v", t("cur").trait("v")),
+                    _via("cur"))),
+        ("u_curv", ((lambda o: _v(_pc_cur(o))), False, E("cur.v", t("cur").trait("v")),
+                    _via("cur"))),
+        ("c_pinv", ((lambda o: _v(o.inner)), True, E("pin.v", t("pin").trait("v")), _via("pin"))),
+        ("c_deepv", ((lambda o: _v(_pc_deep(o))), True, E("deep.v", t("deep").trait("v")),
+                     _via("deep"))),
+        ("c_lookv", ((lambda o: _v(_pc_look(o))), True, E("look.v", t("look").trait("v")),
+                     _via("look"))),
+        ("c_selv", ((lambda o: _v(o.shadow)), True, E("sel.v", t("sel").trait("v")), _via("sel"))),
+        ("c_cursub", ((lambda o: _v(_pc_cur2(o))), True,
+                      E("cur.sub.v", t("cur").trait("sub").trait("v")), _via("cur", "sub"))),
+        ("c_cur2v", ((lambda o: _v(_pc_cur2(o))), True, E("cur2.v", t("cur2").trait("v")),
+                     _via("cur2"))),
+        ("c_ucurv", ((lambda o: _v(_pc_cur(o))), True, E("ucur.v", t("ucur").trait("v")),
+                     _via("ucur"))),
+        ("c_mix", ((lambda o: (_v(_pc_cur(o)), _v(o.inner))), True,
+                   E("cur.v, inner.v", t("cur").trait("v") | t("inner").trait("v")),
+                   (lambda o: (_v(o.cur), _v(o.inner))))),
+    ])
+    return _mini_class(name, traits, props, static=static)
+
+
+PCA = _pc_class("PCA", False, ("c_curv", "c_lookv", "c_cur2v", "cur"))
+PCB = _pc_class("PCB", True, ("u_curv", "c_pinv", "c_selv", "c_cursub", "c_ucurv"))
+PC_CLASSES = {"PCA": PCA, "PCB": PCB}
+PC_PROPS = list(PCA._mini_props)
+PC_NPROPS = len(PC_PROPS)
+PC_CUR = ("cur", "ucur", "cur2", "c_curv", "u_curv", "c_cursub", "c_cur2v", "c_ucurv", "c_mix")
+PC_INNER = ("pin", "deep", "c_pinv", "c_deepv", "c_mix")
+PC_LOOK = ("look", "c_lookv")
+PC_SEL = ("sel", "c_selv")
+# dependents whose intermediate property is UNCACHED (the old value is not known when it changes)
+PC_VIA_UNCACHED = ("c_ucurv",)
+
+
+def gen_chain_history(rng, steps):
+    spec = {"cls": rng.choice(sorted(PC_CLASSES)),
+            "listen": rng.choice(["none", "otc", "obs", "both", "both"]),
+            "dyn": rng.getrandbits(PC_NPROPS) | rng.getrandbits(PC_NPROPS),
+            "init": rng.choice(["kw", "kw", "late", "kw_index_first"])}
+    ops = []
+    for _ in range(steps):
+        c = rng.random()
+        op = {"r": rng.randrange(3), "m": rng.getrandbits(PC_NPROPS) | rng.getrandbits(PC_NPROPS),
+              "sel": rng.randrange(12), "own": rng.randrange(4)}
+        if c < 0.30:
+            # bias: the item the chain currently ends at / one it ended at before / any
+            op["op"], op["x"] = "item_v", [rng.randrange(10), rng.randrange(16), rng.randrange(5)]
+        elif c < 0.42:
+            op["op"], op["x"] = "index_set", [rng.randrange(-1, 5)]
+        elif c < 0.56:
+            op["op"] = rng.choice(["l_append", "l_insert", "l_pop", "l_del", "l_set", "l_set",
+                                   "l_assign", "l_remove", "l_reverse", "l_extend", "l_setslice"])
+            op["x"] = [rng.randrange(-4, 6), rng.randrange(-4, 16), rng.randrange(-4, 16)]
+        elif c < 0.62:
+            op["op"], op["x"] = "inner_set", [rng.randrange(-4, 16)]
+        elif c < 0.69:
+            op["op"], op["x"] = "item_sub", [rng.randrange(10), rng.randrange(16),
+                                             rng.randrange(-5, 16)]
+        elif c < 0.76:
+            op["op"] = rng.choice(["d_set", "d_set", "d_del", "d_assign", "key_set", "key_set"])
+            op["x"] = [rng.randrange(3), rng.randrange(-4, 16)]
+        elif c < 0.81:
+            op["op"], op["x"] = "shadowset", [rng.randrange(-4, 16), rng.randrange(2)]
+        elif c < 0.85:
+            op["op"], op["x"] = "compound", [rng.randrange(-1, 4), rng.randrange(-4, 16),
+                                             rng.randrange(1, 8)]
+        elif c < 0.93:
+            op["op"], op["x"] = "copy", [rng.choice(COPY_KINDS)]
+        else:
+            op["op"], op["x"] = rng.choice(["irr", "item_w"]), [rng.randrange(16)]
+        ops.append(op)
+    return spec, ops
+
+
+class ChainHistory(MiniHistory):
+    pfx = "property-chain/"
+    cpfx = "chain_"
+    strict_uncached = False     # judge spurious invalidations through an uncached intermediate
+
+    def fp(self, o):
+        cur = _pc_cur(o)
+        csub = None if cur is None else cur.sub
+        inner = o.inner
+        sub = None if inner is None else inner.sub
+        look = _pc_look(o)
+        sel = o.shadow
+        f_curv = (cur, _v(cur))
+        f_cs = (cur, csub, _v(csub))
+        return {"cur": (cur,), "ucur": (cur,), "pin": (inner,), "deep": (inner, sub),
+                "look": (look,), "sel": (sel,), "cur2": (cur, csub),
+                "c_curv": f_curv, "u_curv": f_curv, "c_ucurv": f_curv,
+                "c_pinv": (inner, _v(inner)), "c_deepv": (inner, sub, _v(sub)),
+                "c_lookv": (look, _v(look)), "c_selv": (sel, _v(sel)),
+                "c_cursub": f_cs, "c_cur2v": f_cs,
+                "c_mix": (cur, _v(cur), inner, _v(inner))}
+
+    def ends(self, o):
+        """The objects the observed paths currently end at."""
+        cur = _pc_cur(o)
+        return [x for x in (cur, o.inner, _pc_deep(o), _pc_look(o), o.shadow,
+                            None if cur is None else cur.sub) if x is not None]
+
+    def reach(self, o):
+        out, seen = [], set()
+        inner = o.inner
+        c = list(o.items) + [inner, None if inner is None else inner.sub, o.shadow]
+        c += [o.d[k] for k in sorted(o.d)]
+        c += [x.sub for x in c if x is not None]
+        for x in c:
+            if x is not None and id(x) not in seen:
+                seen.add(id(x))
+                out.append(x)
+        return out
+
+    def cands(self, o):
+        out = self.reach(o)
+        seen = set(id(x) for x in out)
+        for r in self.live:
+            if r.obj is not o:
+                for x in self.reach(r.obj)[:3]:
+                    if id(x) not in seen:
+                        seen.add(id(x))
+                        out.append(x)
+        for x in self.pool + self.former:
+            if id(x) not in seen:
+                seen.add(id(x))
+                out.append(x)
+        return out
+
+    def item(self, o, ref, none_ok=False):
+        if ref < 0:
+            if none_ok and ref == -1:
+                return None
+            it = Item(v=-ref % 4)
+            if ref % 2:
+                it.sub = Item(v=(-ref + 1) % 4)
+            self.pool.append(it)
+            del self.pool[:-6]
+            return it
+        c = self.cands(o)
+        return c[ref % len(c)]
+
+    def make(self):
+        p = self.pool = [Item(v=0), Item(v=1), Item(v=2), Item(v=3)]
+        p[0].sub = p[3]
+        p[1].sub = Item(v=1)
+        init = self.spec.get("init", "kw")
+        kw = dict(items=[p[0], p[1], p[0]], inner=p[2], d={"k": p[1], "j": p[0]}, shadow=p[1])
+        if init == "kw":
+            o = self.cls(**kw)
+        elif init == "kw_index_first":
+            o = self.cls(index=1, key="j", **kw)
+        else:
+            o = self.cls()
+            o.sel = kw["shadow"]             # through the property's setter
+            o.d = kw["d"]
+            o.inner = kw["inner"]
+            o.items = kw["items"]
+        return o
+
+    def setup(self):
+        self.cls = PC_CLASSES[self.spec["cls"]]
+        self.former = []                   # items a path ended at earlier (bounded)
+        self.attach(self.make(), "fresh")
+
+    def remember(self, o):
+        for x in self.ends(o):
+            if not any(x is y for y in self.former):
+                self.former.append(x)
+        del self.former[:-8]
+
+    def one(self, op):
+        name, x = op["op"], op["x"]
+        r = self.live[-1] if op["own"] or len(self.live) == 1 else \
+            self.live[op["sel"] % len(self.live)]
+        o = r.obj
+        touched, mult, fam = None, 1, name
+        self.remember(o)
+        if name in ("item_v", "item_sub"):
+            ends = self.ends(o)
+            if x[0] < 5 and ends:
+                it, where = ends[x[1] % len(ends)], "path-end"
+            elif x[0] < 7 and self.former:
+                it, where = self.former[x[1] % len(self.former)], "former-path-end"
+            else:
+                c = self.cands(o)
+                it, where = c[x[1] % len(c)], "any"
+            if any(it is y for y in ends):
+                where = "path-end"
+                self.count("changes_of_an_object_reached_through_a_property")
+            if not self.strict_uncached:
+                # an uncached intermediate cannot tell the maintainer its old value (own stratum)
+                touched = {q.sn: PC_VIA_UNCACHED for q in self.live}
+            if name == "item_v":
+                def fn():
+                    it.v = x[2] if it.v != x[2] else (x[2] + 1) % 5
+                fam = "leaf-set/" + where
+            else:
+                new = self.item(o, x[2], none_ok=True)
+
+                def fn():
+                    it.sub = new
+                fam = "item-sub-set/" + where
+        elif name == "index_set":
+            touched = {r.sn: PC_CUR}
+
+            def fn():
+                o.index = x[0]
+            fam = "cursor-move"
+        elif name.startswith("l_"):
+            touched = {r.sn: PC_CUR}
+            a, b = self.item(o, x[1]), self.item(o, x[2])
+
+            def fn():
+                lst = o.items
+                n = len(lst)
+                if name == "l_append":
+                    lst.append(a)
+                elif name == "l_insert":
+                    lst.insert(x[0], a)
+                elif name == "l_extend":
+                    lst.extend([a, b])
+                elif name == "l_pop":
+                    if n:
+                        lst.pop(x[0] % n)
+                elif name == "l_del":
+                    if n:
+                        del lst[x[0] % n]
+                elif name == "l_remove":
+                    if n:
+                        lst.remove(lst[x[0] % n])
+                elif name == "l_set":
+                    if n:
+                        lst[x[0] % n] = a
+                elif name == "l_setslice":
+                    lst[max(0, x[0]):max(0, x[0]) + 1] = [a, b]
+                elif name == "l_reverse":
+                    lst.reverse()
+                else:
+                    o.items = [a, b, a][:1 + abs(x[0]) % 3]
+                if len(o.items) > 7:
+                    del o.items[7:]
+            mult = 2             # (the trim is a second list event)
+            fam = "list"
+        elif name == "inner_set":
+            new = self.item(o, x[0], none_ok=True)
+            touched = {r.sn: PC_INNER}
+
+            def fn():
+                o.inner = new
+            fam = "instance-set"
+        elif name in ("d_set", "d_del", "d_assign", "key_set"):
+            new = self.item(o, x[1])
+            touched = {r.sn: PC_LOOK}
+
+            def fn():
+                if name == "d_set":
+                    o.d[DKEYS[x[0]]] = new
+                elif name == "d_del":
+                    o.d.pop(DKEYS[x[0]], None)
+                elif name == "d_assign":
+                    o.d = {DKEYS[x[0]]: new, "k": self.item(o, x[1] + 1)}
+                else:
+                    o.key = DKEYS[x[0]]
+            fam = "lookup"
+        elif name == "shadowset":
+            new = self.item(o, x[0], none_ok=True)
+            touched = {r.sn: PC_SEL}
+
+            def fn():
+                if x[1]:
+                    o.sel = new            # the property's setter
+                else:
+                    o.shadow = new
+            fam = "shadow-set"
+        elif name == "compound":
+            new = self.item(o, x[1], none_ok=True)
+            kw = {}
+            if x[2] & 1:
+                kw["index"] = x[0]
+            if x[2] & 2:
+                kw["inner"] = new
+            if x[2] & 4:
+                kw["items"] = [new or self.item(o, 0), self.item(o, x[1] + 1)]
+            touched = {r.sn: PC_CUR + PC_INNER}
+            mult = max(1, len(kw))
+
+            def fn():
+                o.trait_set(**kw)
+            fam = "compound"
+        elif name == "copy":
+            holder = []
+            kind = x[0]
+
+            def fn():
+                if kind.startswith("pickle"):
+                    holder.append(pickle.loads(pickle.dumps(o, int(kind[6:]))))
+                elif kind == "deepcopy":
+                    holder.append(copy.deepcopy(o))
+                elif kind == "clone":
+                    holder.append(o.clone_traits())
+                else:
+                    holder.append(o.clone_traits(copy=kind[6:]))
+            fam = "copy/" + _okind(kind)
+        elif name == "item_w":
+            c = self.cands(o)
+            it = c[x[0] % len(c)]
+
+            def fn():
+                it.w += 1
+            fam = "irrelevant"
+        else:
+            def fn():
+                o.irr += 1
+            fam = "irrelevant"
+        self.judged_step(fam, fn, touched, mult, reads=0)
+        if name == "copy":
+            self.attach(holder[0], x[0])
+            self.count("copies")
+            self.count("copies_" + _okind(x[0]))
+            if len(self.live) > 3:
+                del self.live[0]
+        elif name in ("item_v", "item_sub") and where == "path-end":
+            self.count("path_end_changes_on_" + _okind(r.origin))
+        self.judged_step("reads", lambda: None, None, 1, reads=op["r"], mask=op["m"])
+
+
+class ChainDefaultsHistory(ChainHistory):
+    """Own stratum of an open finding: the value of the intermediate property comes from state
+    that never changed since the observers were installed (a per-instance default), so the
+    property never announced itself and the object it evaluates to was never hooked."""
+    collapse = "property-chain/intermediate-property-never-announced"
+    cpfx = "chain_defaults_"
+
+    def make(self):
+        o = PC_DEFAULT_CLASSES[self.spec["cls"]]()
+        if self.spec.get("init") == "late":
+            o.irr = 1
+        return o
+
+
+def _pcd_class(name, base):
+    return type(HasTraits)(name, (base,), {"__module__": __name__, "__qualname__": name,
+                                           "inner": Instance(Item, ())})
+
+
+PCAd = _pcd_class("PCAd", PCA)
+PCBd = _pcd_class("PCBd", PCB)
+PC_DEFAULT_CLASSES = {"PCA": PCAd, "PCB": PCBd}
+
+
+def gen_chain_defaults_history(rng, steps):
+    spec, _ = gen_chain_history(rng, 0)
+    ops = []
+    for _ in range(steps):
+        op = {"r": 1 + rng.randrange(2), "m": -1, "sel": 0, "own": 1}
+        if rng.random() < 0.8:
+            op["op"], op["x"] = "item_v", [0, 1, rng.randrange(5)]     # the default nested object
+        else:
+            op["op"], op["x"] = "irr", [0]
+        ops.append(op)
+    return spec, ops
+
+
+class ChainUncachedHistory(ChainHistory):
+    """Own stratum of an open finding: the intermediate property is UNCACHED, its change is
+    announced with old=Undefined, the hooks on the object it evaluated to before stay behind and
+    a later change of that object invalidates the dependent although nothing relevant changed."""
+    collapse = "property-chain/uncached-intermediate-property-keeps-hooks-on-former-value"
+    cpfx = "chain_uncached_"
+    strict_uncached = True
+
+
+def gen_chain_uncached_history(rng, steps):
+    spec, _ = gen_chain_history(rng, 0)
+    ops = []
+    for i in range(steps):
+        op = {"r": 1, "m": 1 << PC_PROPS.index("c_ucurv"), "sel": 0, "own": 1}
+        if i % 2 == 0:
+            op["op"], op["x"] = "index_set", [rng.randrange(0, 3)]
+        else:
+            op["op"], op["x"] = "item_v", [5, rng.randrange(8), rng.randrange(5)]   # a former end
+        ops.append(op)
+    return spec, ops
+
 
 def midflight(ctx, rng):
     """Unjudged observation: reads made inside a change handler of the dependency itself
@@ -2288,7 +3257,12 @@ def run(ctx):
     # small dedicated strata (own keys and counters)
     for tag, gen, engine, n, steps2 in (
             ("it", gen_it_history, InstanceTraitHistory, ctx.scale(320, 9000), 25),
-            ("churn", gen_churn_history, ChurnHistory, ctx.scale(320, 9000), 30)):
+            ("churn", gen_churn_history, ChurnHistory, ctx.scale(320, 9000), 30),
+            ("cm", gen_cm_history, ComparisonModeHistory, ctx.scale(288, 9000), 25),
+            ("chain", gen_chain_history, ChainHistory, ctx.scale(352, 11000), 25),
+            # strata of open findings (every failure collapses into the finding's key)
+            ("chain0", gen_chain_defaults_history, ChainDefaultsHistory, ctx.scale(48, 480), 4),
+            ("chainu", gen_chain_uncached_history, ChainUncachedHistory, ctx.scale(48, 480), 8)):
         for h in range(n):
             if not ctx.mine(h):
                 continue
@@ -2300,7 +3274,7 @@ def run(ctx):
                 engine(sink, spec, ops).run()
                 ctx.count(tag + "_histories")
                 if h < 2 and ctx.shard < 2:
-                    ctx.sample({"stratum": engine.pfx, "class": spec["cls"],
+                    ctx.sample({"stratum": engine.collapse or engine.pfx, "class": spec["cls"],
                                 "listeners": spec["listen"],
                                 "first_ops": [[o["op"], o["x"]] for o in ops[:8]]})
             except CaseTimeout:
